@@ -15,8 +15,11 @@ META = {
                    'rejects; E-TAB: no shipped rule uses such a value.',
     'decided': 'the two implementations are the same decision procedure with the same results on every path; both callers pass '
                '(year, inMonth, onDayOfWeek, onDayOfMonth) in that order; every (month, day-of-month) combination that can resolve '
-               'into another year is rejected by the compiler; no shipped rule (zonedb, zonedbx, zonedbpy) has such a combination',
-    'not_decided': 'that the resolved day is the calendar\'s answer for all inputs (needs the semantics of DOW and DIM)',
+               'into another year is rejected by the compiler; no shipped rule (zonedb, zonedbx, zonedbpy) has such a combination; '
+               'a Zone UNTIL weekday expression is resolved with (untilYear, untilMonth, weekday, day), both the resolved month and '
+               'day are stored, and resolutions into month 0 or 13 are refused',
+    'not_decided': 'that the resolved day is the calendar\'s answer for all inputs: DIM and DOW are opaque here - their tables, the '
+                   'leap-year rule and the weekday anchor are decided by C06',
     'assumptions': ['weekday numbers are 1..7 on both sides so that the (a - b + 7) % 7 shifts have non-negative operands '
                     '(truncating and flooring remainder coincide)', 'clang 14 parser', 'CPython ast'],
 }
@@ -210,6 +213,48 @@ def run(cfg):
         R.instance('R4', c4 + ':year-spill', uf.loc, 'rejected months %s' % sorted(rejected))
         if not {0, 13} <= rejected:
             R.violation('R4', c4 + ':year-spill', uf.loc, 'a resolution into month %s (another year) is not refused' % sorted({0, 13} - rejected))
+    # ---- R5 the C++ resolver against the calendar: constant propagation of every admitted (month, weekday, day) expression of
+    # a set of years through the real body (calcStartDayOfMonth -> forComponents/dayOfWeek/daysInMonth), oracle: datetime
+    import datetime
+    from .ceval import CEval
+    R.rule('R5', 'calcStartDayOfMonth resolves every admitted expression of the sampled years to the calendar\'s (month, day)', floor=5000)
+    years = [1873, 1900, 1999, 2000, 2001, 2004, 2100, 2126] if cfg.tier == 'thorough' else [1900, 2000, 2019]
+    cf = lib.fn(CXX_FN)
+    ev = CEval(lib)
+    n5, bad5 = 0, []
+    try:
+        for y in years:
+            for mth in range(1, 13):
+                for dow in range(1, 8):
+                    for dom in range(-31, 32):
+                        try:
+                            if dom == 0:
+                                last = (datetime.date(y + (mth == 12), mth % 12 + 1, 1) - datetime.timedelta(days=1))
+                                dt = last
+                                while dt.isoweekday() != dow:
+                                    dt -= datetime.timedelta(days=1)
+                            else:
+                                dt = datetime.date(y, mth, abs(dom))
+                                step = datetime.timedelta(days=1 if dom > 0 else -1)
+                                while dt.isoweekday() != dow:
+                                    dt += step
+                        except ValueError:
+                            continue
+                        if dt.year != y:
+                            continue          # year spill: refused by the compiler (R2)
+                        n5 += 1
+                        got = ev.call(cf, None, (y, mth, dow, dom))
+                        gm = (got.fields.get('month'), got.fields.get('day')) if hasattr(got, 'fields') else got
+                        if gm != (dt.month, dt.day):
+                            bad5.append('%d month %d weekday %d day %d -> %r (calendar: %d-%02d)' % (y, mth, dow, dom, gm, dt.month, dt.day))
+    except AnalysisError:
+        raise
+    except Exception as e:
+        raise AnalysisError('%s: calcStartDayOfMonth cannot be folded (%r)' % (cf.loc, e))
+    R.instance('R5', 'BasicZoneProcessor::calcStartDayOfMonth@calendar', cf.loc, '%d cases over the years %s' % (n5, years), n=n5)
+    if bad5:
+        R.violation('R5', 'BasicZoneProcessor::calcStartDayOfMonth@calendar', cf.loc, '%d of %d admitted expressions resolve to another day than the calendar gives, e.g. %s'
+                    % (len(bad5), n5, '; '.join(bad5[:3])))
     # ---- R3 shipped data
     n_rules = 0
     for db in ('zonedb', 'zonedbx'):
@@ -249,6 +294,11 @@ SELFTEST = [
              replace='uint8_t dayOfWeekShift = (onDayOfWeek - limitDate.dayOfWeek() + 14) % 7;'),
         dict(file='tools/tzdb/transformer.py', find='day_of_week_shift = (on_day_of_week - limit_date.isoweekday() + 7) % 7',
              replace='day_of_week_shift = (on_day_of_week - limit_date.isoweekday() + 14) % 7')], expect='silent'),
+    dict(id='same-wrong-edit-on-both-sides', edits=[
+        dict(file='src/ace_time/BasicZoneProcessor.h', find='uint8_t dayOfWeekShift = (onDayOfWeek - limitDate.dayOfWeek() + 7) % 7;',
+             replace='uint8_t dayOfWeekShift = (onDayOfWeek - limitDate.dayOfWeek() + 8) % 7;'),
+        dict(file='tools/tzdb/transformer.py', find='day_of_week_shift = (on_day_of_week - limit_date.isoweekday() + 7) % 7',
+             replace='day_of_week_shift = (on_day_of_week - limit_date.isoweekday() + 8) % 7')], rule='R5'),
     dict(id='caller-swaps-arguments', file='src/ace_time/ExtendedZoneProcessor.h',
          find='yearTiny + LocalDate::kEpochYear, rule.inMonth(), rule.onDayOfWeek(),\n          rule.onDayOfMonth());',
          replace='yearTiny + LocalDate::kEpochYear, rule.inMonth(), rule.onDayOfMonth(),\n          rule.onDayOfWeek());', rule='R1', construct='getTransitionTime'),
